@@ -73,6 +73,11 @@ class GotranCCodePrinter(C99CodePrinter):
             return "INFINITY" if value > 0 else "(-INFINITY)"
         return self._print(str(value))
 
+    def _print_Abs(self, expr):
+        # every quantity of the generated code is a double: for an integer-valued
+        # argument, e.g. floor(x), sympy would call C's integer ``abs``
+        return f"fabs({self._print(expr.args[0])})"
+
     def _print_Piecewise(self, expr):
         if isinstance(expr.args[0][0], Assignment):
             result = []
